@@ -173,8 +173,11 @@ def _gen_item(repo, blk, gen):
             p.replace_tokens(k + 1, k + 1, a['as'], 'rename')
         if blk.get('spec'):
             p.insert_before(body, '\n' + '\n'.join(blk['spec']) + '\n')
-        if blk.get('prologue'):
-            p.insert_after(body, '\n' + '\n'.join(blk['prologue']) + '\n')
+        pro = list(blk.get('prologue', []))
+        if blk.get('__vacuity__'):
+            pro.append(f'    assert(false); //# vac.{(a.get("as") or label).replace("::", ".")}')
+        if pro:
+            p.insert_after(body, '\n' + '\n'.join(pro) + '\n')
         if blk.get('epilogue'):
             p.insert_before(p.b, '\n' + '\n'.join(blk['epilogue']) + '\n')
     if kind == 'const' and blk.get('const_ensures'):
@@ -231,6 +234,8 @@ def _gen_slice(repo, blk, gen):
     first = len(gen.lines) + 1
     gen.emit('\n'.join(blk.get('header', [])))
     gen.emit('\n'.join(blk.get('prologue', [])))
+    if blk.get('__vacuity__'):
+        gen.emit(f'    assert(false); //# vac.{a["name"]}')
     gen.emit(rendered)
     gen.emit('\n'.join(blk.get('epilogue', [])))
     gen.regions.append((first, len(gen.lines), a['name'], 'slice'))
@@ -276,7 +281,8 @@ def generate(repo, template_text, variables=None):
         m = DIRECTIVE.match(ln)
         if blk is None:
             if m and m.group(1) in ('item', 'slice', 'literal'):
-                blk = {'type': m.group(1), 'args': _kv(m.group(2)), 'rewrites': [], 'anchored': []}
+                blk = {'type': m.group(1), 'args': _kv(m.group(2)), 'rewrites': [], 'anchored': [],
+                       '__vacuity__': bool(variables.get('__vacuity__'))}
                 section = None
                 if blk['type'] == 'literal':
                     _gen_literal(repo, blk, gen)
